@@ -15,7 +15,7 @@ def run(chk, tier, seed):
     wd = workdir("C03")
     # A1: exhaustive candidates over a small alphabet against a dozen definitions
     alphabet = [ord(c) for c in "AaBbeE120"]
-    maxlen = 6 if th else 4
+    maxlen = 5 if th else 4
     defs = [list(d.encode()) for d in DEFS]
     text = ("---- MODULE MCMnemonic_C03 ----\nEXTENDS MCMnemonic\n"
             f"C_Alphabet == {{{', '.join(map(str, alphabet))}}}\n"
